@@ -308,6 +308,45 @@ class H2Server(TimerMixin, Peer):
         if d and not self.closed:
             self.wire.push(now + self.hcfg.get("lat", 0.0005), d)
 
+    def _noise(self, now, sid, plan):
+        """Frames a server may legally send in the middle of a response and that carry no
+        part of it: stream- and connection-level WINDOW_UPDATE, PRIORITY, PING, a frame
+        of an unknown type (to be ignored)."""
+        if not plan.get("h2_noise") or self.closed:
+            return
+        r = self.w.rng(f"h2noise/{self.wire.id}")
+        if r.random() > 0.5:
+            return
+        self._flush(now)
+        kind = r.choice(["wu_stream", "wu_stream", "wu_conn", "priority", "ping", "unknown"])
+        self.w.probes["h2_noise:" + kind] += 1
+        import struct as _st
+
+        def frame(typ, flags, stream, payload):
+            return _st.pack(">I", len(payload))[1:] + bytes([typ, flags]) + _st.pack(">I", stream) + payload
+
+        try:
+            if kind == "wu_stream":
+                k = r.choice([1, 100, 5000])
+                self.c.increment_flow_control_window(k, stream_id=sid)
+                self.ledger.stream_credit[sid] = self.ledger.stream_credit.get(sid, 0) + k
+            elif kind == "wu_conn":
+                k = r.choice([1, 100, 5000])
+                self.c.increment_flow_control_window(k)
+                self.ledger.conn_window += k
+            elif kind == "ping":
+                self.c.ping(b"sim-ping")
+            elif kind == "priority":
+                self.wire.push(now + self.hcfg.get("lat", 0.0005),
+                               frame(2, 0, sid, _st.pack(">IB", 0, r.randrange(256))))
+            else:
+                self.wire.push(now + self.hcfg.get("lat", 0.0005),
+                               frame(0xFA, r.randrange(256), r.choice([0, sid]),
+                                     bytes(r.randrange(256) for _ in range(r.randint(0, 12)))))
+        except h2.exceptions.ProtocolError as e:
+            self.w.log("h2_srv_event_skipped", self.wire.id, "noise", repr(e))
+        self._flush(now)
+
     def _close(self, t, kind=EOF):
         if not self.closed:
             self.closed = True
@@ -612,6 +651,8 @@ class H2Server(TimerMixin, Peer):
                 self.w.log("h2_srv_event_skipped", self.wire.id, "respond", repr(e))
                 return
             self.w.log("h2_resp", self.wire.id, sid, tok, plan["status"], n)
+            if sid in self.ledger.open_srv and not (n == 0 and not plan.get("h2_empty_data")):
+                self._noise(t, sid, plan)
             if n == 0 and not plan.get("h2_empty_data"):
                 self.ledger.server_ended(sid)
             else:
@@ -674,6 +715,8 @@ class H2Server(TimerMixin, Peer):
                     rem -= k
                     burst -= 1
                     progress = True
+                    if rem > 0:
+                        self._noise(now, sid, plan)
                     if gap and rem > 0:
                         p["next_t"] = now + gap
                         self.at(p["next_t"], self._pump)
